@@ -276,6 +276,24 @@ func genC13(g *G) {
 			emit(strings.Repeat(dc.decoy, n)+dc.hit[:len(dc.hit)-1], dc.needle)
 		}
 	}
+	// orbits whose members have different UTF-8 widths: a narrower member that is rejected sits right
+	// before (or one filler byte before) the only real match, whose first rune is a wider member
+	for _, orbit := range [][]string{{"k", "K", "\u212a"}, {"s", "S", "\u017f"}, {"\u00e5", "\u00c5", "\u212b"}, {"\u03c9", "\u03a9", "\u2126"}, {"\u00df", "\u1e9e"}, {"\u03b8", "\u03d1", "\u03f4", "\u0398"}} {
+		for _, first := range orbit {
+			for _, shadow := range orbit {
+				for _, real := range orbit {
+					for _, tail := range []string{"t", "!", ".", ""} {
+						for _, fill := range []string{"", "x", "xy"} {
+							for _, pre := range []string{"", "27 "} {
+								emit(pre+shadow+fill+real+tail+" ", first+tail)
+								emit(pre+shadow+fill+real+tail, first+tail)
+							}
+						}
+					}
+				}
+			}
+		}
+	}
 	// ASCII: all pairs over {a, A, k, K, s, 1} with |s| <= 4, |sub| <= 2 (quick: sampled)
 	asc := []string{"a", "A", "k", "K", "s", "1"}
 	for _, s := range words(4, asc) {
@@ -329,6 +347,19 @@ func genC13(g *G) {
 	}
 	for _, p := range [][2]string{{"", ","}, {" ", ","}, {",", ","}, {" , ,\t, ", ","}, {"||  ||", "||"}, {"a", ""}, {"abc", ""}, {" a b ", ""}} {
 		emitST(g, p[0], p[1])
+	}
+	// separators that overlap themselves, with runs of their characters of every length and alignment
+	for _, sep := range []string{"--", "::", "aba", "aa", "||", ".."} {
+		c := sep[:1]
+		for run := 1; run <= 7; run++ {
+			r := strings.Repeat(c, run)
+			if sep == "aba" {
+				r = strings.Repeat("ab", run) + "a"
+			}
+			for _, shape := range []string{"x" + r, r + "x", "x" + r + "y", r, "x" + r + "y" + r, " x" + r + " "} {
+				emitST(g, shape, sep)
+			}
+		}
 	}
 }
 
